@@ -226,9 +226,11 @@ public:
 
         bool advance_suspend_lk(Handle h, awaiter *awt) {
             subreg_t &l = _regs[h];
-            if (l._kicked || _closed) return false;
+            if (l._kicked) return false;
+            //always advance - the caller reads the value at the new position, or
+            //detects the end of stream there, when the queue is closed
             l._pos++;
-            if (l._pos == _pos) {
+            if (l._pos == _pos && !_closed) {
                 l._awt = awt;
                 return true;
             } else {
